@@ -17,7 +17,7 @@ func (t *Tags) ReadFrom(r io.Reader) (n int64, err error) {
 		err = binary.Read(r, binary.BigEndian, values[:])
 		if err == nil {
 			data = make([]byte, values[1])
-			_, err = r.Read(data)
+			_, err = io.ReadFull(r, data)
 		}
 		if err == nil {
 			tags[values[0]] = data
